@@ -26,7 +26,7 @@ def plan(tier, seed):
         for r in range(n):
             cases.append(dict(lane=lane, T=int(rng.choice([8, 16, 100, 1000, 4096])), K=int(rng.integers(1, 5)), M=int(rng.integers(1, 6)),
                               lead=[[], [3], [2, 2], [1], [1, 3], [2, 1], [1, 1]][int(rng.integers(0, 7))], scale=float(10 ** rng.uniform(-6, 6)),
-                              avg_s=bool(rng.integers(0, 2)), avg_c=bool(rng.integers(0, 2)), rd=[False, True, 'pre_'][int(rng.integers(0, 3))], rs=[seed, 19, i]))
+                              avg_s=bool(rng.integers(0, 2)), avg_c=bool(rng.integers(0, 2)), rd=[False, True, 'pre_', ['in', 'sxr.', 'a__', 'input_', '_', 'x-'][int(rng.integers(0, 6))]][int(rng.integers(0, 4))], rs=[seed, 19, i]))       # any string is a prefix, used as it is
             i += 1
     return cases
 
